@@ -173,9 +173,13 @@ fn mechanism(files: &[FFile]) -> &'static str {
 }
 
 fn hostile_case(sub: &str, jail: &Jail, shapes: &[&Shape], stripped: bool, relative: bool, rank: u64, acc: &mut Acc) {
+    let files: Vec<FFile> = shapes.iter().map(|s| materialise(s, jail)).collect();
+    hostile_files(sub, jail, files, stripped, relative, rank, acc)
+}
+
+fn hostile_files(sub: &str, jail: &Jail, files: Vec<FFile>, stripped: bool, relative: bool, rank: u64, acc: &mut Acc) {
     acc.evals += 1;
     jail.reset();
-    let files: Vec<FFile> = shapes.iter().map(|s| materialise(s, jail)).collect();
     let order: Vec<usize> = (0..files.len()).collect();
     // stripped entries address header files by index, so two header files of the same path are both processed
     let x = if stripped {
@@ -471,7 +475,45 @@ pub fn run(ctx: &Ctx) -> i32 {
     )
 }
 
+/// Re-runs one hostile case from its entry list in a fresh jail (a plain, explorer-free reproduction).
 pub fn replay(_ctx: &Ctx, v: &Value) -> i32 {
-    println!("re-run ./check C12; failing entry list:\n{}", serde_json::to_string_pretty(&v["case"]).unwrap_or_default());
-    0
+    let c = &v["case"];
+    let Some(entries) = c["entries"].as_array() else {
+        println!("not a hostile entry list (benign cases: re-run ./check C12):\n{}", serde_json::to_string_pretty(c).unwrap_or_default());
+        return 0;
+    };
+    let jail = Jail::new("replay");
+    let sub_out = |t: &str| t.replace("<jail>/outside-dir", &jail.outside_dir());
+    let mut files = vec![];
+    for e in entries {
+        let dir = e["dirname"].as_str().unwrap_or("/");
+        let base = sub_out(e["basename"].as_str().unwrap_or(""));
+        let mode = u16::from_str_radix(e["mode"].as_str().unwrap_or("100644"), 8).unwrap_or(0o100644);
+        let f = match mode & 0o170000 {
+            0o120000 => FFile::symlink(dir, &base, &sub_out(e["linkto"].as_str().unwrap_or(""))),
+            0o040000 => FFile::dir(dir, &base, mode & 0o7777),
+            _ => {
+                let mut f = FFile::regular(dir, &base, b"DATA");
+                f.mode = mode;
+                f
+            }
+        };
+        files.push(f);
+    }
+    let stripped = c["archive"].as_str().map(|a| a.starts_with("stripped")).unwrap_or(false);
+    let relative = c["extract_destination"].as_str().map(|a| a.starts_with("../")).unwrap_or(false);
+    let mut acc = Acc::new();
+    hostile_files("replay", &jail, files, stripped, relative, 0, &mut acc);
+    for (k, n) in &acc.hist {
+        println!("{}: {}", k, n);
+    }
+    for v in acc.viols.values() {
+        println!("REPRODUCED {}: {}", v.key(), v.what);
+    }
+    if acc.viols.is_empty() {
+        println!("not reproduced: nothing outside the target changed and extract did not panic");
+        0
+    } else {
+        1
+    }
 }
